@@ -282,21 +282,30 @@ theorem chkObjNear_iff (tol obj opt : ℚ) :
   unfold chkObjNear; rw [decide_eq_true_eq, absR_eq, absR_eq]
 
 /-- **T-spec** the interior-point `FEASIBLE` check: `x ≥ 0` and the squared positive part of
-`A x − b` is at most `r²`. -/
-theorem chkResidual_iff (r : ℚ) (x : Vec) :
-    chkResidual P r x = true ↔
+`A x − b − δ` is at most `r²`, `δ_i = ulp·(∑_j |A_ij x_j| + |b_i| + 1)` the rounding allowance
+(`ulp = 0`: the exact residual). -/
+theorem chkResidual_iff (r ulp : ℚ) (x : Vec) :
+    chkResidual P r ulp x = true ↔
       (∀ j : Fin P.n, 0 ≤ vecF P.n x j) ∧
-      ∑ i : Fin P.m, (max 0 (∑ j, P.toF.A i j * vecF P.n x j - P.toF.b i)) ^ 2 ≤ r ^ 2 := by
+      ∑ i : Fin P.m, (max 0 (∑ j, P.toF.A i j * vecF P.n x j - P.toF.b i
+        - ulp * (∑ j, |P.toF.A i j * vecF P.n x j| + |P.toF.b i| + 1))) ^ 2 ≤ r ^ 2 := by
   unfold chkResidual
   rw [Bool.and_eq_true, allTo_iff]
   simp only [decide_eq_true_eq]
-  have e : P.resid2 x = ∑ i : Fin P.m, (max 0 (∑ j, P.toF.A i j * vecF P.n x j - P.toF.b i)) ^ 2 := by
+  have e : P.resid2 ulp x = ∑ i : Fin P.m, (max 0 (∑ j, P.toF.A i j * vecF P.n x j - P.toF.b i
+      - ulp * (∑ j, |P.toF.A i j * vecF P.n x j| + |P.toF.b i| + 1))) ^ 2 := by
     unfold LP.resid2; rw [sumTo_eq_sum]
     refine Finset.sum_congr rfl fun i _ => ?_
     simp only []
     rw [rowDot_eq]
     have hb : P.toF.b i = vget P.b i := rfl
-    rw [hb]
+    have hs : P.roundSlack ulp x i = ulp * (∑ j, |P.toF.A i j * vecF P.n x j| + |P.toF.b i| + 1) := by
+      unfold LP.roundSlack
+      rw [sumTo_eq_sum, absR_eq, hb]
+      have : ∑ j : Fin P.n, absR (P.a i j * vget x j) = ∑ j, |P.toF.A i j * vecF P.n x j| :=
+        Finset.sum_congr rfl fun j _ => by rw [absR_eq]; rfl
+      rw [this]
+    rw [hs, hb]
     show (if 0 < _ then _ else _) = _
     split
     · rename_i h; rw [max_eq_right h.le]; ring
